@@ -1,8 +1,9 @@
 (* C19 at the level of the SOURCE (see Props/C11Src.v for the method): the MiniPy semantics of the regenerated terms of
    helper.encode_varint / int_to_little_endian / little_endian_to_int equals the model, hence the Spec. *)
-From BHW Require Import Lib.Base Model.Helper Spec.Script Proofs.Varint Py.Interp Py.Tactics Proofs.PyHelper.
+From BHW Require Import Lib.Base Model.Helper Model.ScriptM Spec.Script Proofs.Varint Proofs.Script Py.Interp Py.Tactics Proofs.PyHelper Proofs.PyScript.
 From BHWGen Require Import PyAst.
 Open Scope Z_scope.
+Open Scope list_scope.
 
 (* the source of encode_varint emits exactly Bitcoin's compactSize, and raises outside [0, 2^64) *)
 Theorem C19_source_varint_is_compact_size : forall ext fuel i,
@@ -22,11 +23,44 @@ Theorem C19_source_endian : forall ext fuel,
                          = match int_to_little_endian n len with Ok b => Val (VBytes b) | Err => Exc OverflowError end).
 Proof. intros. split; intros; [apply le2int_sem|apply int2le_sem]. Qed.
 
+(* Script.serialize / raw_serialize (methods; the object is a value whose field `cmds` is only read): the semantics of the
+   regenerated terms is the model's function -- value, or a genuine Python exception where the model refuses *)
+Theorem C19_source_serialize_is_model : forall ext fuel cmds,
+  agrees (sem_script__Script__raw_serialize ext fuel [vscript cmds]) (rmap VBytes (raw_serialize cmds)) /\
+  agrees (sem_script__Script__serialize ext fuel [vscript cmds]) (rmap VBytes (serialize cmds)).
+Proof. intros. split; [apply raw_serialize_sem|apply serialize_sem]. Qed.
+
+(* hence the source emits the standard wire form (bare length byte 1..75, PUSHDATA1 76..255, PUSHDATA2 256..520, compactSize
+   prefix) for every script of opcodes and non-empty elements, and raises when the Spec has no encoding *)
+Theorem C19_source_serialize_is_spec : forall ext fuel cmds,
+  Forall (fun c => match c with Data d => (1 <= List.length d)%nat | _ => True end) cmds ->
+  match script_wire (map to_item cmds) with
+  | Some b => sem_script__Script__serialize ext fuel [vscript cmds] = Val (VBytes b)
+  | None => exists e, sem_script__Script__serialize ext fuel [vscript cmds] = Exc e /\ genuine e
+  end.
+Proof.
+  intros ext fuel cmds H. assert (A := serialize_sem ext fuel cmds). rewrite (serialize_spec cmds H) in A.
+  destruct (script_wire (map to_item cmds)); exact A.
+Qed.
+
+(* an element over 520 bytes anywhere in the script: the source raises *)
+Theorem C19_source_too_long_refused : forall ext fuel cmds d,
+  In (Data d) cmds -> (520 < List.length d)%nat ->
+  exists e, sem_script__Script__serialize ext fuel [vscript cmds] = Exc e /\ genuine e.
+Proof.
+  intros ext fuel cmds d Hin Hl. assert (A := serialize_sem ext fuel cmds).
+  destruct (too_long_refused_script cmds d Hin Hl) as [_ E]. rewrite E in A. exact A.
+Qed.
+
 Theorem C19_source_all_translated :
   forallb (fun q => existsb (String.eqb q) translated)
-          ["helper.encode_varint"; "helper.int_to_little_endian"; "helper.little_endian_to_int"]%string = true.
+          ["helper.encode_varint"; "helper.int_to_little_endian"; "helper.little_endian_to_int";
+           "script.Script.raw_serialize"; "script.Script.serialize"]%string = true.
 Proof. reflexivity. Qed.
 
 Print Assumptions C19_source_varint_is_compact_size.
 Print Assumptions C19_source_endian.
+Print Assumptions C19_source_serialize_is_model.
+Print Assumptions C19_source_serialize_is_spec.
+Print Assumptions C19_source_too_long_refused.
 Print Assumptions C19_source_all_translated.
